@@ -16,21 +16,26 @@ pub struct Sha3 {
 }
 
 impl Sha3 {
+    #[inline]
     pub fn v256() -> Sha3 {
         Sha3 { acc: [0; 8], n: 0 }
     }
+    #[inline]
     pub fn v224() -> Sha3 {
         Self::v256()
     }
+    #[inline]
     pub fn v384() -> Sha3 {
         Self::v256()
     }
+    #[inline]
     pub fn v512() -> Sha3 {
         Self::v256()
     }
 }
 
 impl Hasher for Sha3 {
+    #[inline]
     fn update(&mut self, input: &[u8]) {
         if input.len() == 32 {
             // a child digest: fold its first bytes one position further down
@@ -50,6 +55,7 @@ impl Hasher for Sha3 {
             }
         }
     }
+    #[inline]
     fn finalize(self, output: &mut [u8]) {
         let mut i = 0;
         while i < output.len() {
